@@ -277,9 +277,79 @@ message Tail {
 		fmt.Fprintf(&sb, "  .%s after = %d;\n}\n\n", refs[(i*per+per)%len(refs)], num)
 		n++
 	}
+	// test.zzclash.v1: distinct types whose J5 schema names coincide, because the schema name of a
+	// nested type is its path joined with "_": Foo.Bar (nested) and Foo_Bar (top level), the nested
+	// enum Job.Status and the message Job_Status. KNOWN FINDING (known_findings.txt): the cache is
+	// keyed by schema name, so whichever is used first on a shared codec decides what the other one
+	// gets. These types only ever appear in workloads of their own.
+	clash := `syntax = "proto3";
+package test.zzclash.v1;
+
+message Foo {
+  message Bar {
+    string inner = 1;
+  }
+  Bar bar = 1;
+  string name = 2;
+}
+message Foo_Bar {
+  string outer = 1;
+  int64 count = 2;
+}
+message Job {
+  enum Status {
+    STATUS_UNSPECIFIED = 0;
+    STATUS_DONE = 1;
+  }
+  Status status = 1;
+  string title = 2;
+}
+message Job_Status {
+  string text = 1;
+}
+`
+	// test.zzshape.v1: sizes no hand-written test proto has - an enum of 40 and one of 300 options, a
+	// message of 70 fields, a oneof of 40 arms, twelve levels of nesting: where lookups switch from
+	// scanning to indexing and small-array fast paths end.
+	var sh strings.Builder
+	sh.WriteString("syntax = \"proto3\";\npackage test.zzshape.v1;\n\n")
+	for _, e := range []struct {
+		name string
+		n    int
+	}{{"Forty", 40}, {"Huge", 300}} {
+		fmt.Fprintf(&sh, "enum %s {\n  %s_UNSPECIFIED = 0;\n", e.name, strings.ToUpper(e.name))
+		for i := 1; i < e.n; i++ {
+			fmt.Fprintf(&sh, "  %s_V%d = %d;\n", strings.ToUpper(e.name), i, i)
+		}
+		sh.WriteString("}\n\n")
+	}
+	sh.WriteString("message UsesEnums {\n  Forty forty = 1;\n  repeated Forty forties = 2;\n  Huge huge = 3;\n  map<string, Huge> by_name = 4;\n  string note = 5;\n}\n\n")
+	sh.WriteString("message Wide70 {\n")
+	for i := 1; i <= 70; i++ {
+		typ := []string{"string", "int64", "bool", "Forty", "int32", "double", "bytes"}[i%7]
+		fmt.Fprintf(&sh, "  %s f%d = %d;\n", typ, i, i)
+	}
+	sh.WriteString("}\n\n")
+	sh.WriteString("message ManyArms {\n  oneof choice {\n")
+	for i := 1; i <= 40; i++ {
+		typ := []string{"string", "int64", "Wide70", "Forty"}[i%4]
+		fmt.Fprintf(&sh, "    %s arm%d = %d;\n", typ, i, i)
+	}
+	sh.WriteString("  }\n  string tail = 50;\n}\n\n")
+	for i := 1; i <= 12; i++ {
+		fmt.Fprintf(&sh, "message Deep%d {\n  string level = 1;\n", i)
+		if i < 12 {
+			fmt.Fprintf(&sh, "  Deep%d next = 2;\n", i+1)
+		} else {
+			sh.WriteString("  UsesEnums leaf = 2;\n")
+		}
+		sh.WriteString("}\n\n")
+	}
 	compileProtoSources(map[string]string{
-		"test/zzcyc/v1/cyc.proto":   cyc,
-		"test/zzwide/v1/wide.proto": sb.String(),
+		"test/zzshape/v1/shape.proto": sh.String(),
+		"test/zzclash/v1/clash.proto": clash,
+		"test/zzcyc/v1/cyc.proto":     cyc,
+		"test/zzwide/v1/wide.proto":   sb.String(),
 	})
 }
 
